@@ -159,3 +159,80 @@ Example ex_active_established :
             /\ sndWnd (SN t) = 1000 /\ sndWndScale (SN t) = 7 /\ rcvWndScale (RC t) = 6
             /\ maxPayload (SN t) = 1448 /\ sndNxt (SN t) = 0 /\ rcvNxt (RC t) = 2147483648.
 Proof. eexists. split; [vm_compute; reflexivity|]. vm_compute. repeat split; reflexivity. Qed.
+
+(* ---- the completed handshake behind an active open *)
+Lemma active_established_inv iss irs peerWnd o stackSack rb sb linkMtu iphdr t :
+  TcpEst.active_established iss irs peerWnd o stackSack rb sb linkMtu iphdr = Some t ->
+  exists h, t = TcpEst.transfer h rb sb (linkMtu - iphdr) /\
+            TcpHs.h_iss h = iss /\ TcpHs.h_mss h = TcpHs.so_mss o /\ TcpHs.h_ackNum h = u32 (irs + 1).
+Proof.
+  unfold TcpEst.active_established. cbv zeta.
+  unfold TcpHs.hsHandle, TcpHs.hsActiveInit. cbn [TcpHs.h_state TcpHs.h_sndWndScale TcpHs.hs_flags].
+  replace (TcpHs.has (Z.lor TcpHs.fSyn TcpHs.fAck) TcpHs.fSyn) with true by reflexivity.
+  cbn [negb andb]. change (TcpHs.stSynSent =? TcpHs.stSynRcvd) with false. cbv iota.
+  change (TcpHs.stSynSent =? TcpHs.stSynSent) with true. cbv iota.
+  unfold TcpHs.synSentState. cbn [TcpHs.hs_flags].
+  replace (TcpHs.has (Z.lor TcpHs.fSyn TcpHs.fAck) TcpHs.fRst) with false by reflexivity.
+  cbv iota.
+  unfold TcpHs.checkAck. cbn [TcpHs.hs_flags TcpHs.hs_ack TcpHs.h_iss].
+  replace (TcpHs.has (Z.lor TcpHs.fSyn TcpHs.fAck) TcpHs.fAck) with true by reflexivity.
+  cbn [andb].
+  rewrite Z.eqb_refl. cbn [negb andb]. cbv iota.
+  replace (TcpHs.has (Z.lor TcpHs.fSyn TcpHs.fAck) TcpHs.fSyn) with true by reflexivity.
+  cbn [negb]. cbv iota.
+  cbn [TcpHs.setState TcpHs.enableOpts TcpHs.h_state TcpHs.hs_opts TcpHs.hs_seq].
+  change (0 =? 0) with true. change (TcpHs.stCompleted =? TcpHs.stCompleted) with true. cbn [andb]. cbv iota.
+  intros E. injection E as <-.
+  eexists. split; [reflexivity|]. cbn. repeat split; reflexivity.
+Qed.
+
+Lemma active_snd_init iss irs peerWnd o stackSack rb sb linkMtu iphdr t :
+  is_u32 iss -> 1 <= TcpHs.so_mss o ->
+  TcpEst.active_established iss irs peerWnd o stackSack rb sb linkMtu iphdr = Some t ->
+  TcpNetP.snd_init iss t /\ TcpNetP.rcv_init irs t.
+Proof.
+  intros Hi Hm E. destruct (active_established_inv _ _ _ _ _ _ _ _ _ _ E) as (h & -> & H1 & H2 & H3).
+  split.
+  - rewrite <- H1. apply transfer_snd_init; [rewrite H1; exact Hi|rewrite H2; exact Hm].
+  - apply transfer_rcv_init. exact H3.
+Qed.
+
+(* ---- passive open: the accepted connection *)
+Lemma passive_init iss irs synWnd o stackSack lrcv sb mtu :
+  is_u32 iss -> 1 <= TcpHs.so_mss o ->
+  let t := TcpEst.passive_established iss irs synWnd o stackSack lrcv sb mtu in
+  TcpNetP.snd_init iss t /\ TcpNetP.rcv_init irs t.
+Proof.
+  intros Hi Hm t. subst t.
+  unfold TcpNetP.snd_init, TcpSndP.established, TcpNetP.rcv_init, TcpEst.passive_established,
+         TcpEst.newSender, TcpEst.newReceiver, seq_of. cbn.
+  repeat split; try reflexivity.
+  - symmetry. apply u32_small. exact Hi.
+  - apply initMaxPayload_pos. exact Hm.
+  - replace (irs + 1 + 0) with (irs + 1) by lia. reflexivity.
+Qed.
+
+(* the window an accepted connection starts with is the SYN's window field as it is (a SYN's
+   window is never scaled); the scale is the SYN's option; our own scale applies only if the SYN
+   carried the option; initial window 10, timer off *)
+Lemma passive_established_spec iss irs synWnd o stackSack lrcv sb mtu :
+  let t := TcpEst.passive_established iss irs synWnd o stackSack lrcv sb mtu in
+  sndWnd (SN t) = synWnd /\
+  sndWndScale (SN t) = (if 0 <? TcpHs.so_ws o then TcpHs.so_ws o else 0) /\
+  rcvWndScale (RC t) = (if TcpHs.so_ws o <? 0 then 0 else TcpHs.findWndScale lrcv) /\
+  cwnd (SN t) = 10 /\ outstanding (SN t) = 0 /\ tstate (SN t) = tDisabled /\
+  sndNxt (SN t) = u32 (iss + 1) /\ rcvNxt (RC t) = u32 (irs + 1).
+Proof. cbn. repeat split; reflexivity. Qed.
+
+(* ---- a client's active open answered by a listener: the two ends the stream theorem starts from *)
+Theorem active_passive_conn issA issB wndA wndB oA oB skA skB rbA sbA linkMtuA iphdrA lrcvB sbB mtuB tA :
+  is_u32 issA -> is_u32 issB -> 1 <= TcpHs.so_mss oA -> 1 <= TcpHs.so_mss oB ->
+  (* A's SYN carried (issA, wndA, oA); B's SYN-ACK carried (issB, wndB, oB) *)
+  TcpEst.active_established issA issB wndB oB skA rbA sbA linkMtuA iphdrA = Some tA ->
+  TcpNetP.conn_init issA issB tA (TcpEst.passive_established issB issA wndA oA skB lrcvB sbB mtuB).
+Proof.
+  intros IA IB MA MB E.
+  destruct (active_snd_init _ _ _ _ _ _ _ _ _ _ IA MB E) as [SA RA].
+  destruct (passive_init issB issA wndA oA skB lrcvB sbB mtuB IB MA) as [SB RB].
+  unfold TcpNetP.conn_init. split; [exact SA|]. split; [exact SB|]. split; [exact RA|exact RB].
+Qed.
